@@ -7,6 +7,7 @@ import (
 	"fmt"
 	"math/rand"
 	"runtime"
+	"strings"
 	"sync"
 	"sync/atomic"
 	"time"
@@ -331,6 +332,85 @@ func childOfDone(r *sup.CaseResult, rng *rand.Rand, g int, isolated bool) {
 	if panics > 0 {
 		r.Violate("child-of-done-panic", fmt.Sprintf("%d goroutines panicked while creating/closing children of an ending scope; first: %v", panics, firstPanic.Load()), wit)
 		return
+	}
+	// an isolated child created after the parent's end is still stopped by it ("a child with an
+	// isolated context ... is still stopped when the parent stops"): its Done() must close. The
+	// verdict is not a timeout: if the context is still open and no watcher goroutine of an
+	// isolated context is left in the process, nothing can ever close it.
+	if isolated {
+		for k := 0; k < 2; k++ {
+			ictx := contextscope.NewIsolated(parent.BaseContextScope())
+			closed := false
+			for w := 0; w < 20000 && !closed; w++ {
+				if ictx.IsDone() {
+					closed = true
+					break
+				}
+				if w%50 == 49 {
+					time.Sleep(50 * time.Microsecond)
+				} else {
+					runtime.Gosched()
+				}
+			}
+			if !closed {
+				buf := make([]byte, 1<<20)
+				d := string(buf[:runtime.Stack(buf, true)])
+				if !strings.Contains(d, "contextscope.NewIsolated.func") {
+					r.Violate("isolated-child-of-ended-parent-never-stopped", fmt.Sprintf("an isolated context created after the parent's %s is not done and no watcher goroutine exists that could ever stop it", []string{"Kill", "Stop", "AppendError"}[ender]), wit)
+				} else {
+					r.Inconclusive = "isolated child of an ended parent not yet done, watcher goroutine still present"
+				}
+				return
+			}
+			r.AddObs("isolated_children_of_ended_parent_stopped", 1)
+		}
+	}
+	// children of the already finished scope are created and closed while other goroutines wait on
+	// it: a done scope refuses the registration without touching its task accounting, so this is
+	// safe use (no Add can race with the Wait)
+	{
+		var wg2 sync.WaitGroup
+		var p2 int64
+		var first2 atomic.Value
+		for i := 0; i < 3; i++ {
+			wg2.Add(1)
+			go func() {
+				defer wg2.Done()
+				defer func() {
+					if x := recover(); x != nil {
+						atomic.AddInt64(&p2, 1)
+						first2.CompareAndSwap(nil, fmt.Sprint(x))
+					}
+				}()
+				for k := 0; k < 40; k++ {
+					c := scope.NewChild(parent, scope.ChildParams{})
+					c.Close()
+					atomic.AddInt64(&afterDone, 1)
+				}
+			}()
+		}
+		for i := 0; i < 2; i++ {
+			wg2.Add(1)
+			go func() {
+				defer wg2.Done()
+				defer func() {
+					if x := recover(); x != nil {
+						atomic.AddInt64(&p2, 1)
+						first2.CompareAndSwap(nil, fmt.Sprint(x))
+					}
+				}()
+				for k := 0; k < 40; k++ {
+					parent.Wait()
+					runtime.Gosched()
+				}
+			}()
+		}
+		wg2.Wait()
+		if p2 > 0 {
+			r.Violate("child-of-done-panic", fmt.Sprintf("children of the already finished scope were created and closed while other goroutines waited on it: %d calls panicked; first: %v", p2, first2.Load()), wit)
+			return
+		}
+		r.AddObs("children_of_done_scope_created_beside_waiters", 120)
 	}
 	// a child created after the end: must be safe too (deterministic part)
 	func() {
